@@ -65,7 +65,9 @@ impl Family for C08 {
         let pattern = PATTERNS[rng.below(5) as usize];
         let rwb = rkind.word_bits();
         let wwb = wword.bits();
-        let nbytes = (rng.usize_range(4, 40) * rwb / 8).min(320).max(32);
+        // scale: one run in 200 copies more than 2^16 bits out of a ~12 KiB image
+        let big = rng.chance(1, 200);
+        let nbytes = if big { 12_288 } else { (rng.usize_range(4, 40) * rwb / 8).min(320).max(32) };
         let image = gen_image(rng, pattern, nbytes);
         let nops = rng.usize_range(1, 14);
         let mut ops = Vec::new();
@@ -98,7 +100,13 @@ impl Family for C08 {
                 4 => *rng.pick(&[63u64, 64, 65]),
                 5 => *rng.pick(&[2 * rwb as u64 - 1, 2 * rwb as u64, 2 * rwb as u64 + 1]),
                 6 => *rng.pick(&[2 * wwb as u64 + 1, 3 * wwb as u64, 129]),
-                _ => rng.range(0, 300),
+                _ => {
+                    if big && rng.chance(1, 2) {
+                        rng.range(65_000, 90_000)
+                    } else {
+                        rng.range(0, 300)
+                    }
+                }
             };
             Op8::Copy { to: rng.chance(1, 2), n }
         };
